@@ -172,6 +172,89 @@ def corrupt_cache(p, cls):
         fh.write(out)
 
 
+class InjectedFault(OSError):
+    pass
+
+
+class FaultInjector:
+    """raise OSError at the k-th mutating file-system call made by the library (C14).  Installed from
+    outside into the namespaces of the file_builder modules; /repo is not changed."""
+    MODS = ['file_builder.file_builder', 'file_builder.cache', 'file_builder.file_backups']
+    OPS = ['mkdir', 'makedirs', 'rename', 'replace', 'rmdir']
+
+    def __init__(self, k=None):
+        self.k = k
+        self.count = 0
+        self.fired = None
+        self.log = []
+        self.saved = []
+        self.ctx = None
+
+    def _hit(self, op, path):
+        import sys as _sys
+        if op == 'rmdir':
+            # only where the library promises to report the failure (_make_room); the best-effort
+            # clean-ups (_remove_empty_dirs) swallow errors by design
+            f = _sys._getframe(2)
+            if f.f_code.co_name != '_make_room':
+                return
+        self.count += 1
+        self.log.append([op, path])
+        if self.k is not None and self.count == self.k and self.fired is None:
+            in_call = list(self.ctx.call_stack[-1]) if self.ctx is not None and self.ctx.call_stack else ['root']
+            self.fired = {'op': op, 'path': path, 'in_call': in_call, 'k': self.k,
+                          'root_returned': bool(self.ctx is not None and getattr(self.ctx, 'root_returned', False))}
+            if self.ctx is not None:
+                self.ctx.fault_call = tuple(self.ctx.call_stack) if self.ctx.call_stack else ('root',)
+            import errno
+            raise InjectedFault(errno.EIO, 'injected fault', path)
+
+    def __enter__(self):
+        import gzip as real_gzip
+        import importlib
+        import os as real_os
+        import types
+        inj = self
+        proxy = types.ModuleType('os_fault_proxy')
+        proxy.__dict__.update({k: getattr(real_os, k) for k in dir(real_os) if not k.startswith('__')})
+
+        def wrap(name, fn):
+            def w(*a, **kw):
+                inj._hit(name, str(a[0]) if a else '')
+                return fn(*a, **kw)
+            return w
+        for n in self.OPS:
+            setattr(proxy, n, wrap(n, getattr(real_os, n)))
+        gz = types.ModuleType('gzip_fault_proxy')
+        gz.__dict__.update({k: getattr(real_gzip, k) for k in dir(real_gzip) if not k.startswith('__')})
+
+        def gzopen(filename, mode='rb', *a, **kw):
+            if 'w' in mode:
+                inj._hit('open-for-write', str(filename))
+                fh = real_gzip.open(filename, mode, *a, **kw)
+                real_write = fh.write
+
+                def failing_write(data):
+                    # the write itself can fail (disk full) after the file has been created
+                    inj._hit('write-cache', str(filename))
+                    return real_write(data)
+                fh.write = failing_write
+                return fh
+            return real_gzip.open(filename, mode, *a, **kw)
+        gz.open = gzopen
+        for m in self.MODS:
+            mod = importlib.import_module(m)
+            if hasattr(mod, 'os'):
+                self.saved.append((mod, 'os', mod.os)); mod.os = proxy
+            if hasattr(mod, 'gzip'):
+                self.saved.append((mod, 'gzip', mod.gzip)); mod.gzip = gz
+        return self
+
+    def __exit__(self, *a):
+        for mod, name, val in self.saved:
+            setattr(mod, name, val)
+
+
 def show_exc(e, ctx=None):
     out = {'cls': dsl.exc_cls(e)}
     if isinstance(e, dsl.UserExc):
@@ -216,24 +299,39 @@ def run_case(case, hooks=None):
                 apply_mut(root, st[1], st[2], st[3], st[4])
                 outs.append({'tree': snapshot(root, cache_abs)})
             elif k == 'build':
-                _, name, versions_w, root_idx, arg_w = st
+                _, name, versions_w, root_idx, arg_w = st[:5]
                 versions = dsl.dec_pyval(versions_w)
                 ctx = dsl.Ctx(case, root, versions, clock, fb.FileComparison)
                 before_tmp = tmp_leftovers()
 
                 def rootf(b, a):
-                    return dsl.run_func(ctx, root_idx, b, None, a, {}, is_root=True)
+                    r_ = dsl.run_func(ctx, root_idx, b, None, a, {}, is_root=True)
+                    ctx.root_returned = True
+                    return r_
                 if hooks and 'pre_build' in hooks:
                     hooks['pre_build'](ctx, root, cache_abs)
+                opts = st[5] if len(st) > 5 and isinstance(st[5], dict) else {}
+                inj = FaultInjector(opts.get('inject')) if (opts.get('inject') is not None or opts.get('count_faults')) else None
+                if inj is not None:
+                    inj.ctx = ctx
+                    inj.__enter__()
                 try:
-                    r = FileBuilder.build_versioned(cache_abs, name, versions, rootf, dsl.dec_pyval(arg_w))
-                    res = {'ok': wire.enc(r)}
-                except Exception as e:
-                    res = {'exc': show_exc(e, ctx)}
+                    try:
+                        r = FileBuilder.build_versioned(cache_abs, name, versions, rootf, dsl.dec_pyval(arg_w))
+                        res = {'ok': wire.enc(r)}
+                    except Exception as e:
+                        res = {'exc': show_exc(e, ctx)}
+                        if isinstance(e, InjectedFault) or (inj is not None and inj.fired and isinstance(e, OSError)):
+                            res['exc']['cls'] = 'OSError'
+                finally:
+                    if inj is not None:
+                        inj.__exit__()
                 obs = {'res': res, 'tree': snapshot(root, cache_abs), 'inv': ctx.inv, 'root': root,
                        'cache_json': read_cache_json(cache_abs) if 'ok' in res and os.path.isfile(cache_abs) else None,
                        'queries': ctx.query_log, 'contract': ctx.contract,
                        'tmp_leak': [n for n in tmp_leftovers() if n not in before_tmp]}
+                if inj is not None:
+                    obs['fault'] = {'fired': inj.fired, 'injectable_calls': inj.count, 'calls': inj.log[:60]}
                 if hooks and 'post_build' in hooks:
                     hooks['post_build'](ctx, root, cache_abs, obs)
                 outs.append(obs)
